@@ -21,6 +21,17 @@ import (
 
 const verifDir = "/verif"
 
+// outDir is where evidence and replay artefacts are written (/verif unless VERIF_OUT redirects a
+// scratch run, e.g. a run against a seeded change, away from the committed evidence).
+var outDir = envOr("VERIF_OUT", verifDir)
+
+func envOr(k, d string) string {
+	if v := os.Getenv(k); v != "" {
+		return v
+	}
+	return d
+}
+
 // Violation is one disagreement between the implementation and an oracle.
 type Violation struct {
 	Property string         `json:"property"`
@@ -289,10 +300,10 @@ func (c *Ctx) Finish() int {
 		ev["violation_samples"] = c.violations
 	}
 	b, _ := json.MarshalIndent(ev, "", " ")
-	os.MkdirAll(filepath.Join(verifDir, "evidence"), 0o755)
-	tmp := filepath.Join(verifDir, "evidence", c.ID+".json.tmp")
+	os.MkdirAll(filepath.Join(outDir, "evidence"), 0o755)
+	tmp := filepath.Join(outDir, "evidence", c.ID+".json.tmp")
 	if err := os.WriteFile(tmp, b, 0o644); err == nil {
-		os.Rename(tmp, filepath.Join(verifDir, "evidence", c.ID+".json"))
+		os.Rename(tmp, filepath.Join(outDir, "evidence", c.ID+".json"))
 	}
 
 	for _, l := range knownLines {
@@ -303,8 +314,8 @@ func (c *Ctx) Finish() int {
 		f := c.fams[n]
 		fmt.Printf("  family %-14s patterns=%-8d evaluations=%-11d nontrivial=%-9d complete=%v %s\n", n, f.Patterns, f.Evaluations, f.Nontrivial, f.Complete, f.Note)
 	}
-	os.MkdirAll(filepath.Join(verifDir, "replays"), 0o755)
-	if old, _ := filepath.Glob(filepath.Join(verifDir, "replays", c.ID+"-*.json")); len(old) > 0 {
+	os.MkdirAll(filepath.Join(outDir, "replays"), 0o755)
+	if old, _ := filepath.Glob(filepath.Join(outDir, "replays", c.ID+"-*.json")); len(old) > 0 {
 		for _, f := range old {
 			os.Remove(f) // artefacts of earlier runs of this check
 		}
@@ -320,7 +331,7 @@ func (c *Ctx) Finish() int {
 		return a.Key < b.Key
 	})
 	for i, v := range c.violations {
-		p := filepath.Join(verifDir, "replays", fmt.Sprintf("%s-%d.json", c.ID, i))
+		p := filepath.Join(outDir, "replays", fmt.Sprintf("%s-%d.json", c.ID, i))
 		vb, _ := json.MarshalIndent(v, "", " ")
 		os.WriteFile(p, vb, 0o644)
 		if i < 10 {
